@@ -48,7 +48,8 @@ def dual_table(ctx):
         dual_tables(ctx, ctx.repo, which)
 
 
-@rule("C05.polarity", props=["C05"], min_instances=4, mutants=[
+@rule("C05.polarity", props=["C05", "C14"], min_instances=4, mutants=[
+    ("pseudoscalar rebuilt as the wedge of the frame (listing order, not the spelled blade)", ("codegen", "def codegen_polarity(x, undual=False):\n    if undual:\n        return x * x.algebra.pss", "def codegen_polarity(x, undual=False):\n    if undual:\n        return x * reduce(operator.xor, x.algebra.frame)")),
     ("missing negation for pss*pss = -1", ("codegen", "    if sign == -1:\n        return - x * x.algebra.pss", "    if sign == -1:\n        return x * x.algebra.pss")),
     ("left multiplication", ("codegen", "    if sign == 1:\n        return x * x.algebra.pss", "    if sign == 1:\n        return x.algebra.pss * x")),
     ("degenerate metric returns x*pss", ("codegen", "    if sign == 0:\n        raise ZeroDivisionError", "    if sign == 0:\n        return x * x.algebra.pss")),
